@@ -95,6 +95,12 @@ def gen_source(rnd, size_class, allow_empty, allow_extreme=True):
         npos, nneg = rnd.randint(1000, 2500), rnd.randint(1000, 2500)
     else:
         npos, nneg = rnd.randint(100, 300), rnd.randint(100, 300)
+    if rnd.random() < 0.1 and size_class != "huge":
+        # very unequal classes: one class from the other end of the size range (a single score, or hundreds against a few)
+        if rnd.random() < 0.5:
+            npos = rnd.choice([1, 1, 2, 3]) if size_class not in ("tiny", "small") else rnd.randint(100, 260)
+        else:
+            nneg = rnd.choice([1, 1, 2, 3]) if size_class not in ("tiny", "small") else rnd.randint(100, 260)
     if allow_empty and rnd.random() < 0.25:
         if rnd.random() < 0.5:
             npos = 0
